@@ -182,7 +182,8 @@ def _strategy(draw, tier):
     desc['points'] = [draw(ex.values(types, dom)) for _ in range(npts)]
     desc['lin'] = [draw(ex.scalars(False, classes=['generic'])),
                    draw(ex.scalars(ex.tinfo(types, types[dom]['fkey']).cplx
-                                   and ex.tinfo(types, types[ran]['fkey']).cplx,
+                                   and ex.tinfo(types, types[ran]['fkey']).cplx
+                                   and not ex.real_linear_only(types, tree),
                                    classes=['generic']))]
     return desc
 
@@ -281,7 +282,7 @@ def _known_inplace_region(env, b):
 
 
 def _aliasing_leaf(node):
-    while node['op'] == 'pos':
+    while node['op'] == 'pos' or (node['op'] == 'pow' and node['n'] == 1):
         node = node['a']
     return node['op'] == 'leaf' and node['kind'] in ('realpart', 'imagpart')
 
